@@ -49,6 +49,10 @@ type Strategy struct {
 	Vote    string   `json:"vote"`    // true | false | none
 	CheckIn bool     `json:"check_in"`
 	Unasked bool     `json:"unasked"` // also "apologise" to parties that did not accuse
+	// Order of the two dealing messages: "" = commitment, then evaluations (same block);
+	// "evals-first" = evaluations, then commitment (same block); "evals-block-first" = the
+	// evaluations one block before the commitment.  Independent of the contents.
+	Order string `json:"order,omitempty"`
 }
 
 type Plan struct {
@@ -98,12 +102,13 @@ type snapRaw struct {
 }
 
 type byzEon struct {
-	poly   *shcrypto.Polynomial
-	gammas *shcrypto.Gammas
-	dealt  bool
-	accd   bool
-	apod   bool
-	voted  bool
+	poly       *shcrypto.Polynomial
+	gammas     *shcrypto.Gammas
+	dealt      bool
+	evalsEarly bool
+	accd       bool
+	apod       bool
+	voted      bool
 }
 
 type runLog struct {
@@ -192,8 +197,7 @@ func execute(plan Plan, servers *dkgrig.Servers) (*runLog, error) {
 				}
 				return phaseStart + 2
 			}
-			if !st.dealt && open == at(S, s.TDeal) {
-				st.dealt = true
+			sendCommit := func() {
 				if s.Commit != "none" {
 					rig.SubmitAs(s.Party, shmsg.NewPolyCommitment(e.Eon, st.gammas))
 					if s.Commit == "dup" {
@@ -201,6 +205,8 @@ func execute(plan Plan, servers *dkgrig.Servers) (*runLog, error) {
 						rig.SubmitAs(s.Party, shmsg.NewPolyCommitment(e.Eon, p2.Gammas()))
 					}
 				}
+			}
+			sendEvals := func() {
 				var rcv []common.Address
 				var blobs [][]byte
 				for _, m := range plan.Members {
@@ -216,6 +222,26 @@ func execute(plan Plan, servers *dkgrig.Servers) (*runLog, error) {
 				}
 				if len(rcv) > 0 {
 					rig.SubmitAs(s.Party, shmsg.NewPolyEval(e.Eon, rcv, blobs))
+				}
+			}
+			if s.Order == "evals-block-first" && !st.evalsEarly && open == at(S, s.TDeal)-1 {
+				st.evalsEarly = true
+				sendEvals()
+			}
+			if !st.dealt && open == at(S, s.TDeal) {
+				st.dealt = true
+				switch s.Order {
+				case "evals-first":
+					sendEvals()
+					sendCommit()
+				case "evals-block-first":
+					if !st.evalsEarly {
+						sendEvals()
+					}
+					sendCommit()
+				default:
+					sendCommit()
+					sendEvals()
 				}
 			}
 			if !st.accd && open == at(S+L, s.TAcc) {
@@ -715,24 +741,28 @@ func exhaustiveN3() []Plan {
 	accs := [][]int{{}, {0}, {1}, {0, 1}}
 	apos := []string{"correct", "wrong", "none"}
 	timings := []string{"in", "late"}
+	orders := []string{"", "evals-first"}
 	seed := uint64(1)
-	for _, e0 := range evalA {
-		for _, e1 := range evalA {
-			for _, c := range commits {
-				for _, a := range accs {
-					for _, ap := range apos {
-						for _, tm := range timings {
-							p := honestPlan(3, 2, 6, seed)
-							seed++
-							s := defaultStrategy(3, 2)
-							s.Evals = []string{e0, e1, ""}
-							s.Commit = c
-							s.Accuse = a
-							s.Apology = ap
-							s.TDeal, s.TAcc, s.TApo = tm, tm, tm
-							p.Byz = []Strategy{s}
-							p.MaxEons = 1
-							out = append(out, p)
+	for _, ord := range orders {
+		for _, e0 := range evalA {
+			for _, e1 := range evalA {
+				for _, c := range commits {
+					for _, a := range accs {
+						for _, ap := range apos {
+							for _, tm := range timings {
+								p := honestPlan(3, 2, 6, seed)
+								seed++
+								s := defaultStrategy(3, 2)
+								s.Evals = []string{e0, e1, ""}
+								s.Commit = c
+								s.Accuse = a
+								s.Apology = ap
+								s.TDeal, s.TAcc, s.TApo = tm, tm, tm
+								s.Order = ord
+								p.Byz = []Strategy{s}
+								p.MaxEons = 1
+								out = append(out, p)
+							}
 						}
 					}
 				}
@@ -843,6 +873,7 @@ func randomPlan(r *vh.RNG) Plan {
 		}
 		s.Apology = vh.Pick(r, "correct", "correct", "wrong", "none")
 		s.TDeal = vh.Pick(r, "in", "in", "late")
+		s.Order = vh.Pick(r, "", "", "evals-first", "evals-block-first")
 		s.TAcc = vh.Pick(r, "in", "in", "late", "early")
 		s.TApo = vh.Pick(r, "in", "in", "late", "early")
 		s.Vote = vh.Pick(r, "true", "false", "none")
@@ -888,6 +919,19 @@ func forcedPlans() []Plan {
 		mk(func(s *Strategy) { s.CheckIn = false }),
 		mk(func(s *Strategy) { s.Commit = "dup"; s.Evals[0] = "wrong" }),
 	)
+	// the evaluations reach the chain before the commitment (both in the dealing phase)
+	for _, ord := range []string{"evals-first", "evals-block-first"} {
+		ord := ord
+		out = append(out,
+			mk(func(s *Strategy) { s.Order = ord }),
+			mk(func(s *Strategy) { s.Order = ord; s.Evals[0] = "wrong" }),
+			mk(func(s *Strategy) { s.Order = ord; s.Evals[1] = "wrong" }),
+			mk(func(s *Strategy) { s.Order = ord; s.Evals[0] = "wrong"; s.Apology = "none" }),
+			mk(func(s *Strategy) { s.Order = ord; s.Evals[0] = "wrong"; s.Evals[1] = "wrong"; s.Apology = "wrong" }),
+			mk(func(s *Strategy) { s.Order = ord; s.Evals[0] = "wrong"; s.Commit = "dup" }),
+			mk(func(s *Strategy) { s.Order = ord; s.Evals[1] = "none"; s.TDeal = "late" }),
+		)
+	}
 	// a slow honest party
 	p := honestPlan(3, 2, 6, 300)
 	p.Slow = []int{1}
@@ -925,7 +969,7 @@ func main() {
 	run := vh.Start("Verif.Corr.C07", 12)
 	run.SetPreamble("From Verif Require Import Model.DKGPure Model.DKGDriver.\nOpen Scope N_scope.")
 	defer run.Finish()
-	run.Rule = "complete DKG runs on n real keyper stacks (smobserver, fx message sender, puredkg, ECIES, one pgfake database each) over tmfake around the real shuttermint app; Byzantine parties from the alphabet eval {correct, wrong, none} per victim x commitment {correct, none, wrong degree, duplicate} x accusation subsets x apology {correct, wrong, none, unasked} x timing {in phase, late, early} x vote; slow honest parties; permuted / partial keyper sets; forced: all-honest n=3..5, each single deviation for n=3,t=2, a failing DKG with restart; thorough: the exhaustive one-Byzantine tables for n=3,t=2, n=4,t=2 and n=4,t=3; non-trivial = a Byzantine or slow party took part and at least one honest keyper finished the DKG; distinct by the JSON rendering of the plan"
+	run.Rule = "complete DKG runs on n real keyper stacks (smobserver, fx message sender, puredkg, ECIES, one pgfake database each) over tmfake around the real shuttermint app; Byzantine parties from the alphabet eval {correct, wrong, none} per victim x commitment {correct, none, wrong degree, duplicate} x order of the two dealing messages {commitment first, evaluations first, evaluations a block earlier} x accusation subsets x apology {correct, wrong, none, unasked} x timing {in phase, late, early} x vote; slow honest parties; permuted / partial keyper sets; forced: all-honest n=3..5, each single deviation for n=3,t=2, a failing DKG with restart; thorough: the exhaustive one-Byzantine tables for n=3,t=2 (both message orders), n=4,t=2 and n=4,t=3; non-trivial = a Byzantine or slow party took part and at least one honest keyper finished the DKG; distinct by the JSON rendering of the plan"
 
 	var plans []Plan
 	if run.Replay != "" {
